@@ -55,6 +55,13 @@ Proof. exact ema_real_last. Qed.
 Theorem C02_ema_closed_sum_def : forall k x r, ema_closed_sum k [] = 0%R /\ ema_closed_sum k (x :: r) = (k * x + (1 - k) * ema_closed_sum k r)%R.
 Proof. intros. split; reflexivity. Qed.
 
+(* MACD over the exact carrier: line = EMA_fast - EMA_slow, signal = EMA(line), histogram = line - signal, as real streams *)
+From Coq Require Import Reals.
+From TA Require Import XR Proofs.XEma Proofs.XCov.
+Theorem C02_macd_exact : forall p1 p2 p3 s xs, macd_new XROps p1 p2 p3 = Ok s ->
+  macd_outs XROps s (map Fin xs) = map (map Fin) (macd_real (kreal p1) (kreal p2) (kreal p3) xs).
+Proof. exact macd_exact. Qed.
+
 From Coq Require Import List Floats.
 From TA Require Import Generic FloatInst XQ Run2 Par.Hom Par.Var Par.Oracle.
 (* the T2 oracle (exact rational run, evaluated by the checks) is the image of the exact real run these
